@@ -664,6 +664,12 @@ func (s *Session) routingKeyInfo(ctx context.Context, stmt string) (*routingKeyI
 		// proto v4 dont need to calculate primary key columns
 		types := make([]TypeInfo, len(info.request.pkeyColumns))
 		for i, col := range info.request.pkeyColumns {
+			if col < 0 || col >= len(info.request.columns) {
+				inflight.err = fmt.Errorf("gocql: invalid partition key index %d in prepared metadata with %d columns", col, len(info.request.columns))
+				// don't cache this error
+				s.routingKeyInfoCache.Remove(stmt)
+				return nil, inflight.err
+			}
 			types[i] = info.request.columns[col].TypeInfo
 		}
 
